@@ -21,7 +21,7 @@ ASSUMPTIONS = ["a stored diagonal pixel contributes twice to its bin's marginal 
                "bins within 1e-9 (relative) of the MAD cutoff and runs whose final var is within 1e-6 of tol are tie-band "
                "inconclusive", "trans-only mode: the literal clause is a known finding; the c-weighted invariant the code "
                "maintains is checked instead"]
-MIN_NONTRIVIAL = {"quick": 100, "thorough": 1000}
+MIN_NONTRIVIAL = {"quick": 70, "thorough": 700}
 REQUIRED_FEATURES = ["mode:gw", "mode:cis", "mode:trans", "converged", "x0:with-zeros-nans", "blacklist:whole-chromosome",
                      "rescale:off", "mask:min_nnz", "mask:mad_max", "counts:float"]
 KAPPA = 4.0
